@@ -119,12 +119,12 @@ def run(pid):
             per_target[tk]["fail"] += 1
             clauses[f"{tk}:{v[1]}"] = clauses.get(f"{tk}:{v[1]}", 0) + 1
             trig = [f"{c['target']}:{v[1]}"]
-            if c["target"].startswith("qasm") and v[1] == "gate-differs" and any(g["k"] == "MCP" for g in c["gates"]):
+            if c["target"].startswith("qasm") and v[1] == "gate-differs" and any(g["k"] in ("MCP", "P") for g in c["gates"]):
                 # explained only if, apart from the phases of the cp gates, the export is gate-for-gate the circuit
                 # AND every printed cp angle is the exact one rounded to two decimals (any other wrong angle is not the finding)
-                strip = lambda gs: [(g["k"], g["w"], 0 if g["k"] == "MCP" else g["m"]) for g in gs if g["k"] != "BAR"]
-                src_cp = [g for g in c["gates"] if g["k"] == "MCP"]
-                out_cp = [g for g in c["neutral"] if g["k"] == "MCP"]
+                strip = lambda gs: [(g["k"], g["w"], 0 if g["k"] in ("MCP", "P") else g["m"]) for g in gs if g["k"] != "BAR"]
+                src_cp = [g for g in c["gates"] if g["k"] in ("MCP", "P")]
+                out_cp = [g for g in c["neutral"] if g["k"] in ("MCP", "P")]
 
                 def rounded(gs, go):
                     try:
